@@ -1363,6 +1363,25 @@ def run_case(ctx):
                 _roundtrip(ctx, "op-set-roundtrip", do, eq, txt)
             return
 
+        if cls == "op_text" and ctx.index % 400 == 399:
+            # a LONG sum (1100 - 2400 terms on six qubits, dyadic coefficients): the printed text of a big Hamiltonian
+            # reads back like that of a small one - no limit on the number of terms is stated
+            import itertools as _it
+
+            k = rng.choice([1100, 1500, 2400])
+            strings = list(_it.islice(_it.product("IXYZ", repeat=6), 1, 4096))
+            rng.shuffle(strings)
+            terms = []
+            for j, st in enumerate(strings[:k]):
+                ops_ = {q: o for q, o in enumerate(st) if o != "I"}
+                c = (rng.randint(1, 64) / 8.0) * rng.choice([1, -1])
+                terms.append(PauliTerm(ops_, complex(c, rng.randint(-8, 8) / 8.0) if j % 5 == 0 else c))
+            op = PauliSum(terms)
+            ctx.describe(f"op_text long sum of {k} terms on 6 qubits", True)
+            ctx.mon.note("op_text:long-sum")
+            exp = canon_op(op)
+            _roundtrip(ctx, "op-text-roundtrip", lambda: PauliSum(str(op)), ops_equal(exp, "text"), f"sum of {k} terms")
+            return
         if cls == "op_text":
             op, spec = rand_operator(rng, PauliTerm, PauliSum)
             printer = rng.choice(["str", "repr", "format"])
